@@ -120,6 +120,17 @@ theorem results_in_submission_order (h : run fl en n outs ops = some s) (sl : Li
   rw [← h3]
   exact map_slotOf_eq s.st s.outs hC.len had (hC.strict hexc (by intro e he; simp [hret] at he))
 
+/-- Exact result pairs: a partial function that RETURNS `None` or an exception INSTANCE as its value (it does not raise) fills its
+slot in the VALUE position — `Res.okObj o`, for `return_exceptions` the pair `(obj, None)` — which is a different slot from the
+one of a function that raised that exception (`Res.err e` / `Res.cancelled`, the pair `(None, exc)`): results are told apart by
+how the body ended, never by the type of the object. -/
+theorem returned_object_is_a_value (h : run fl en n outs ops = some s) (sl : List Res) (hret : s.helper = .returned sl)
+    (i : Nat) (o : Obj) (ho : outs[i]? = some (.retObj o)) :
+    sl[i]? = some (.okObj o) ∧ (∀ e, sl[i]? ≠ some (.err e)) ∧ sl[i]? ≠ some .cancelled := by
+  have := results_in_submission_order fl en n outs ops s h sl hret
+  subst this
+  simp [ho, resOf]
+
 /-- The error contract, for every helper: one that has raised, raised the FIRST exception in schedule order that it gets to see
 (`firstErr`: a task's exception — a body ending in `CancelledError` counts for the raising helpers, is stored in place by
 `return_exceptions` and swallowed by the online pool —, the online body's exception, the cancellation of the caller); one that
@@ -330,6 +341,15 @@ example : run .online .holdingPermit 1 [.ret 0] [.body (.ret 0), .cancelCaller]
     = some ⟨.online, .holdingPermit, [.ret 0], [.done .cancelled], 2, .exitCancelled, some .cancelled, 0⟩ := by decide
 example : runOld .online .holdingPermit 1 [.ret 0] [.body (.ret 0), .cancelCaller]
     = some ⟨.online, .holdingPermit, [.ret 0], [.running], 1, .exitCancelled, none, 1⟩ := by decide
+-- a body that RETURNS an exception instance (and one returning None) next to one that RAISES the same exception: different slots
+example : run .returnExceptions .holdingPermit 3 [.retObj (.exn (.code 5)), .raise 5, .retObj .none] [.finish 0, .finish 1, .finish 2]
+    = some ⟨.returnExceptions, .holdingPermit, [.retObj (.exn (.code 5)), .raise 5, .retObj .none],
+        [.done (.okObj (.exn (.code 5))), .done (.err 5), .done (.okObj .none)], 3,
+        .returned [.okObj (.exn (.code 5)), .err 5, .okObj .none], none, 0⟩ := by decide
+-- returned exception objects are values for the raising helpers and the pool too: nothing is raised, nothing is cancelled
+example : run .raiseCancel .holdingPermit 2 [.retObj (.exn .cancelled), .ret 1] [.finish 0, .finish 1]
+    = some ⟨.raiseCancel, .holdingPermit, [.retObj (.exn .cancelled), .ret 1], [.done (.okObj (.exn .cancelled)), .done (.ok 1)], 2,
+        .returned [.okObj (.exn .cancelled), .ok 1], none, 0⟩ := by decide
 -- not a behaviour: finishing a task that is still waiting for a permit
 example : run .raiseFirst .holdingPermit 1 [.ret 0, .ret 0] [.finish 1] = none := by decide
 
